@@ -16,7 +16,7 @@ pub static LIMITS: Scenario = Scenario {
     id: "C15",
     name: "c15-frame-limits",
     run,
-    quick_runs: 5000,
+    quick_runs: 12_000,
     thorough_runs: 150_000,
     rule: "one run = caller and callee Networks with max_frame_size placed on {caller, callee, both, neither} (values 24 B..256 KiB), 4-16 RPCs whose request/response header frame and body sizes sit at limit-2..limit+2 of either limit (header frame sizes computed by the reference encoder) or are random, each followed by a small follow-up RPC; a rare class sends 8 MiB-1 / 8 MiB / 8 MiB+1 with no limit configured; distinct = distinct order signature over per-RPC (which frame vs which limit, outcome); non-trivial = at least one frame exceeded a limit or sat exactly on it",
     real: super::REAL_NET,
